@@ -127,6 +127,22 @@ func c06Shapes() []c06Shape {
 			}
 		}
 	}
+	// claimant names that are not empty but consist of white space only: whether ergo takes them as a name or refuses
+	// them is not laid down anywhere, so accept/reject is not judged for these shapes - but whatever it does, the task
+	// must end up satisfying the claim invariant (doing/error <=> has a claimant as `show` reports it)
+	for _, cmd := range []string{"set", "new"} {
+		for _, mode := range []string{"json", "flags"} {
+			for _, st := range []string{"-", "todo", "doing", "error", "done"} {
+				for _, blank := range []string{" ", "\t"} {
+					out = append(out, c06Shape{Cmd: cmd, Mode: mode, State: st, Claim: blank, Agent: "-", Pos: "pre"})
+					if st != "-" {
+						out = append(out, c06Shape{Cmd: cmd, Mode: mode, State: st, Claim: "-", Agent: blank, Pos: "pre"})
+					}
+				}
+			}
+		}
+	}
+	out = append(out, c06Shape{Cmd: "claimid", Mode: "flags", State: "-", Claim: "-", Agent: " ", Pos: "pre"}, c06Shape{Cmd: "claimid", Mode: "flags", State: "-", Claim: "-", Agent: "\t", Pos: "post"})
 	for _, ag := range []string{"-", "a", "b"} {
 		for _, pos := range []string{"pre", "post"} {
 			if ag == "-" && pos == "post" {
@@ -349,6 +365,17 @@ func runC06(env *core.Env) {
 				return
 			}
 			outcomes.inc(fmt.Sprintf("%s accept=%v", class, ok))
+			if blankName(j.sh.Claim) || blankName(j.sh.Agent) {
+				// accept/reject not judged (see c06Shapes); a rejected request must still change nothing
+				if !ok && j.sh.Cmd != "new" {
+					showAfter := w.Run(core.R(w.Proj, "--json", "show", target))
+					if string(showAfter.Out) != string(showBefore.Out) || string(after.Log()) != string(st.Store.Log()) {
+						report(env, "C06 kind=rejected-but-changed "+class, fmt.Sprintf("%s exits %d but the task/log changed", j.sh, res.Exit),
+							mkTrace(st.Store, "rejected request changed the task", steps, Assert{Kind: "exit_nonzero", Step: 1}, Assert{Kind: "log_differs", Step: 1, Other: 0}))
+					}
+				}
+				return
+			}
 			switch {
 			case ok && !acc:
 				mu.Lock()
@@ -482,3 +509,6 @@ func blockedClaimed(env *core.Env, cf *concFix) core.Store {
 	fx.Set(cf.T1, map[string]interface{}{"state": "blocked"})
 	return fx.Store()
 }
+
+// blankName: a claimant/agent value that is non-empty but white space only.
+func blankName(v string) bool { return v != "-" && v != "" && strings.TrimSpace(v) == "" }
